@@ -92,6 +92,16 @@ class C23(Check):
             if slicemap_problems(res.templated_file):
                 out.excluded = "source-map-inconsistent(C07)"
                 return out
+            if templater == "jinja":
+                # violations are collected from every rendering variant: a variant whose own source map is
+                # inconsistent (C07's finding) yields positions that cannot be right
+                from sqlfluff.core import Linter
+                from vlib.sf import guard
+
+                rend = guard(Linter(config=cfg).render_string, case["sql"], "t.sql", cfg, "utf8")
+                if not isinstance(rend, Crash) and any(slicemap_problems(tf) for tf in rend.templated_variants):
+                    out.excluded = "variant-source-map-inconsistent(C07)"
+                    return out
         seen = set()
         nchecked = 0
         for v in list(res.violations) + list(res.get_violations(filter_warning=False)):
